@@ -228,7 +228,49 @@ def row_cursor(rep, prog, rule):
              "for every non-integral step, so a jump by a distance that does not depend on the position "
              "(a stride fixed before the loop) lags behind row after row -- and only for the containers "
              "that use this implementation, so the same pixels resize differently by container")
-    from .c14 import _taint
+    def pkey(pl, closure):
+        """a local, or one captured field of the closure environment (kept apart: the state of the
+        iterator lives there)"""
+        if closure and pl and pl[0] == 1:
+            for el in pl[1:]:
+                if isinstance(el, list) and el and el[0] == "f":
+                    return (1, el[1])
+            return None
+        return pl[0] if pl else None
+
+    def fs_taint(g, seeds):
+        closure = g.kind == "closure"
+        t = set(seeds)
+
+        def ops_of(x):
+            if isinstance(x, list):
+                if x and x[0] in ("c", "m") and len(x) > 1 and isinstance(x[1], list):
+                    yield x[1]
+                else:
+                    for y in x:
+                        yield from ops_of(y)
+        changed = True
+        while changed:
+            changed = False
+            for blk in g.blocks:
+                if blk["c"]:
+                    continue
+                for st in blk["s"]:
+                    if st[0] != "a":
+                        continue
+                    k = pkey(st[1], closure)
+                    if k is None or k in t:
+                        continue
+                    if any(pkey(pl, closure) in t for pl in ops_of(st[2])):
+                        t.add(k)
+                        changed = True
+                tm = blk["t"]
+                if tm[0] == "call" and tm[3]:
+                    k = pkey(tm[3], closure)
+                    if k is not None and k not in t and any(pkey(pl, closure) in t for pl in ops_of(tm[2])):
+                        t.add(k)
+                        changed = True
+        return t
     n = 0
     for f in sorted(prog.fns.values(), key=lambda z: z.id):
         if f.kind == "closure" or (f.d.get("method") or f.name.rsplit("::", 1)[-1]) != "iter_rows_with_step":
@@ -240,8 +282,9 @@ def row_cursor(rep, prog, rule):
                     continue
                 for st in blk["s"]:
                     if st[0] == "a" and st[2][0] == "cast" and "FloatToInt" in str(st[2]):
-                        seeds.add(st[1][0])
-            tainted = _taint(prog, g, seeds) if seeds else set()
+                        seeds.add(pkey(st[1], g.kind == "closure"))
+            seeds.discard(None)
+            tainted = fs_taint(g, seeds) if seeds else set()
             for c in g.calls():
                 nm = c.method or c.name.rsplit("::", 1)[-1]
                 if nm == "next" and "Iterator" in c.name or nm == "next" and c.method:
@@ -253,7 +296,8 @@ def row_cursor(rep, prog, rule):
                 rep.touch(g)
                 a = c.args[1]
                 key = "%s|%s|distance" % (f.name, nm)
-                if isinstance(a, list) and a and a[0] in ("c", "m") and a[1] and a[1][0] in tainted:
+                if isinstance(a, list) and a and a[0] in ("c", "m") and a[1] and \
+                        pkey(a[1], g.kind == "closure") in tainted:
                     rep.ok(rule, key, c.at, "the distance of %s(..) is computed from the current position" % nm)
                 elif isinstance(a, list) and a and a[0] == "k" and str(a[1:]).find("0") >= 0 and nm == "nth" \
                         and Sym(g).operand(a, (c.bb, "term")) == ("const", 0, "usize"):
